@@ -30,6 +30,28 @@ def load_findings():
     return json.load(open(p))
 
 
+def load_baseline():
+    """obligations discharged on the unchanged tree, with the hashes of the function bodies they were generated from
+    (committed; written only by tools/gen_baseline.py, never at check time)"""
+    p = os.path.join(HERE, "baseline.json")
+    if not os.path.exists(p):
+        return {}
+    return json.load(open(p))
+
+
+def regressed(baseline, prop, r, obname):
+    """an obligation that was discharged on the unchanged tree and cannot be discharged now, while at least one function
+    body it is generated from has changed: reported as a violation without a failing input (a solver that merely got
+    slower on UNCHANGED code stays 'undecided')"""
+    b = (baseline.get(prop) or {}).get(r["fn"])
+    if not b or obname not in b.get("discharged", []):
+        return False
+    cur = set(r.get("body_shas") or [])
+    if r.get("sha"):
+        cur.add(r["sha"])
+    return bool(cur - set(b.get("shas", [])))
+
+
 def match_finding(findings, prop, fn, obname):
     for f in findings["findings"]:
         props = f.get("properties") or [f.get("property")]
@@ -130,6 +152,32 @@ def finish(prop, tier, repo_root, db, results, lemma_results, wall, verbose=Fals
         rep["native_replay"] = {"exit": code, "output": out}
         json.dump(rep, open(path, "w"), indent=1, default=str)
         violations.append((r["fn"], name, path, code, e))
+    # ---- obligations proved on the unchanged tree that the changed code no longer lets any solver prove
+    baseline = load_baseline()
+    for item in list(undecided):
+        r, name, e = item
+        if e.get("status") == "failed" or not regressed(baseline, prop, r, name):
+            continue
+        again = (extra or {}).get("recheck")
+        verdict = again(r["fn"], name) if again is not None else "undecided"
+        if verdict == "discharged":
+            undecided.remove(item)          # decided after all, with the larger budget: counts as discharged
+            n_dis += 1
+            e["status"] = "discharged"
+            e["solvers"] = sorted(set(e["solvers"]) | {"recheck"})
+            for o in per_ob:
+                if o["fn"] == r["fn"] and o["obligation"] == name:
+                    o["status"], o["solvers"] = "discharged", e["solvers"]
+            continue
+        if verdict == "failed":
+            continue                        # (cannot happen without a counterexample; stays undecided)
+        undecided.remove(item)
+        fail = dict(e["failures"][0]) if e["failures"] else {}
+        fail["detail"] = ("no solver of the portfolio could discharge this obligation any more; it was discharged on the unchanged tree "
+                          f"(baseline.json) and the function body changed since. solver output: {fail.get('detail') or 'unknown'}")
+        fail.pop("model", None)
+        path = write_replay(prop, repo_root, db, r, name, e, fail)
+        violations.append((r["fn"], name, path, 2, e))
     # ---- bounded stand-ins: a failing case is a concrete failing input of the real function
     for b in (extra or {}).get("bounded_failures", []):
         d = os.path.join(HERE, "out", "replay", prop)
@@ -202,7 +250,9 @@ def write_evidence(prop, tier, repo_root, db, allres, n_ob, n_dis, per_ob, sampl
                    errors, wall, code, extra):
     assumed = sorted({a for r in allres for a in r["assumed"]})
     fns = [{"fn": r["fn"], "source_sha256_16": r["sha"], "paths": r["paths"], "queries": r["queries"],
-            "obligations": len(r["obligations"]), "wall_s": r["wall"], "exits": r.get("exits", {})} for r in allres]
+            "obligations": len(r["obligations"]), "wall_s": r["wall"], "exits": r.get("exits", {}),
+            "body_shas": sorted(set(r.get("body_shas") or []) | ({r["sha"]} if r.get("sha") else set())),
+            "covers_reached": r.get("covered", {})} for r in allres]
     contract = {}
     for c in db.contracts.values():
         if prop in c.serves:
@@ -238,6 +288,8 @@ def write_evidence(prop, tier, repo_root, db, allres, n_ob, n_dis, per_ob, sampl
             "property_clauses_not_decided": not_decided,
             "bounded_stand_ins": extra.get("bounded", []),
             "crosscheck": extra.get("crosscheck", {}),
+            "second_opinion_cvc5": {k: sum((r.get("second_opinion") or {}).get(k, 0) for r in allres)
+                                    for k in ("asked", "agree", "unknown", "skipped")},
             "unreached_exceptional_exits": [{"fn": r["fn"], "raises": r["unreached_raises"]} for r in allres if r.get("unreached_raises")],
             "exit_code": code,
             "repo_root": repo_root,
